@@ -348,6 +348,17 @@ class Mailbox:
         #
         if r"\Noselect" not in mbox.attributes:
             optional = not (new_folder or r"\Marked" in mbox.attributes)
+
+            # If messages we have on record are not in the folder (we were
+            # killed after removing them but before that reached the db, and
+            # the folder's mtime - one second granularity - may look
+            # unchanged) the folder has to be scanned, else every access to
+            # those messages fails.
+            #
+            if optional and not set(mbox.msg_keys).issubset(
+                int(x) for x in mbox.mailbox.keys()
+            ):
+                optional = False
             async with mbox.mailbox.lock_folder():
                 await mbox.check_new_msgs_and_flags(optional=optional)
 
